@@ -398,6 +398,8 @@ EXTRA = [  # positions whose content needs its parentheses; nested multi-line do
     '    def dflt(self, h="""p\n    q"""): return h',
     # statements that end with their last element (del / import / from-import / global), multi-byte text before that end on the line
     "del d['clé'], tmp\nimport módulo, b\nfrom módulo import a, b\ns = 'é'; del a, (b)\ndef f():\n    global gé, h; 'ü'; nonlocal_ = 1",
+    # comments that end in a backslash are not line continuations: the parentheses around these expressions are needed
+    "x = (a +  # see C:\\tmp\\\n     b)\ny = (c if d  # \\\n     else e)\nz = (not  # \\\n     g) and (h <  # i\\\n     j)",
 ]
 PROGS8 = list(PROGRAMS) + EXTRA
 for _p in EXTRA:
